@@ -8,6 +8,9 @@ From FT Require Import Model.Base Model.Obs Model.C16Metrics Model.C16Nest Model
 Import ListNotations.
 Open Scope Z_scope.
 
+Section WithZZ.
+Context {zz : ZZ}.
+
 (* ------------------------------------------------------------------ parse round trips *)
 Lemma rows_of_V_rows : forall rs, rows_of_V (V_rows rs) = rs.
 Proof.
@@ -119,10 +122,13 @@ Proof.
       destruct (is_zside (key_kind k)) eqn:Ez; cbn [andb negb].
       * assert (Hexp : forall zi zf q, expect_at L false (key_kind k) (key_label k) zi zf (fst q) (snd q) = []).
         { intros. apply expect_zside_nopop; auto. }
-        rewrite (flat_map_nil _ _ (fun q => Hexp [] [] q)) in O3. rewrite O3. cbn [forallb andb].
+        rewrite (flat_map_nil _ _ (fun q => Hexp (zdesc zz_in (fst q)) (zdesc zz_out (fst q)) q)) in O3. rewrite O3. cbn [forallb andb].
         apply forallb_forall. intros q _. rewrite Hexp. cbn [filter rows_eqb].
         destruct (appending L _ _); [reflexivity|]. unfold read_covered. rewrite Hpop, andb_false_r. reflexivity.
-      * rewrite O3. apply rows_eqb_refl.
+      * rewrite O3.
+        rewrite (flat_map_ext _ (fun q => expect_at L false (key_kind k) (key_label k) [] [] (fst q) (snd q)))
+          by (intros q; apply expect_at_nz; exact Ez).
+        apply rows_eqb_refl.
     + (* not reached: empty, header-less file *)
       assert (Hdata : data = []) by (apply O4; change (0 + d <= j)%nat; lia).
       assert (Hh : hdrs k 0 d = []).
@@ -178,12 +184,15 @@ Proof.
     rewrite forallb_forall in Hf; specialize (Hf _ Hin); apply andb_true_iff in Hf; apply Hf end.
 Qed.
 
+End WithZZ.
+
 (* C16_model_meets_spec for every nest without populate levels *)
 Theorem model_meets_spec_eager : forall c,
   c16_wf c = true -> c16_region c = 0 -> forallb eager_level (k_levels c) = true ->
   c16_holds c (c16_model c) = true.
 Proof.
   intros c Hwf Hreg Heg.
+  pose (zz := {| zz_in := Node []; zz_out := Node [] |}).
   pose proof (wf_env_ok c Hwf) as Henv.
   assert (Hfacts : (length (k_levels c) <= 3)%nat
                    /\ forallb (fun k => 0 <=? key_rank k) (k_keys c) = true
